@@ -371,6 +371,14 @@ func TestC08(t *testing.T) {
 		})
 	}
 	causes := []string{"handler_close", "ctx_cancel", "cut_fin", "cut_rst", "client_close"}
+	rec.Regress(t, func(raw json.RawMessage) *Violation {
+		var c c08Case
+		if json.Unmarshal(raw, &c) != nil {
+			return nil
+		}
+		v, _ := runC08(c)
+		return v
+	})
 	t.Run("grid", func(t *testing.T) {
 		sh, nsh := shard()
 		k := 0
